@@ -174,7 +174,8 @@ Definition parse_doc (big_other : bytes -> option Z) (td : typed_data) : option 
       let dom := GMap (match td_domain td with Some d => d | None => [] end) in
       let msg := match td_message td with Some m => GMap m | None => GNil end in
       match parse_val big_other sts (S (S (gdepth dom))) (Struct domain_name) dom,
-            parse_val big_other sts (S (S (gdepth msg))) (Struct (td_primary td)) msg with
+            (if bytes_eqb (td_primary td) domain_name then Some VNone      (* domain-only: not looked at *)
+             else parse_val big_other sts (S (S (gdepth msg))) (Struct (td_primary td)) msg) with
       | Some d, Some m => Some {| d_types := sts; d_primary := td_primary td; d_domain := d; d_message := m |}
       | _, _ => None
       end
@@ -194,7 +195,7 @@ Definition wf_types_b (sts : types) : bool :=
 Definition wf_doc_b (d : doc) : bool :=
   wf_types_b (d_types d) && bmem domain_name (keys (d_types d)) && bmem (d_primary d) (keys (d_types d))
   && well_typed (d_types d) (Struct domain_name) (d_domain d)
-  && well_typed (d_types d) (Struct (d_primary d)) (d_message d).
+  && (bytes_eqb (d_primary d) domain_name || well_typed (d_types d) (Struct (d_primary d)) (d_message d)).
 
 (* fixed array dimensions fit Go's int *)
 Fixpoint dims_fit_b (t : mty) : bool :=
